@@ -52,6 +52,7 @@ type World struct {
 	nonnil    map[string]bool
 	guards    map[string]string
 	atomics   map[string]string
+	freshLocals map[types.Object]int
 	Errors    []string
 }
 
